@@ -572,17 +572,26 @@ theorem step_cacheOK (s : State) (op : Op) (h : CacheOK s) : CacheOK (step s op)
   | add_readout n f => exact addReadout_cacheOK n f s h
   | remove_readout n => exact removeReadout_cacheOK n s h
   | add_surrogate n su => exact Or.inl (addSurrogate_none (T .add_surrogate rfl) _ _ _)
+  | add_surrogate_kw n su u => exact Or.inl (addSurrogate_none (T .add_surrogate rfl) _ _ _)
   | update_surrogate n u => exact Or.inl (updateSurrogate_none (T .update_surrogate rfl) _ _ _)
   | remove_surrogate n => exact Or.inl (removeSurrogate_none (T .remove_surrogate rfl) _ _)
   | add_data n v => exact Or.inl (addData_none (T .add_data rfl) _ _ _)
   | update_data n v => exact Or.inl (updateData_none (T .update_data rfl) _ _ _)
   | remove_data n => exact Or.inl (removeData_none (T .remove_data rfl) _ _)
 
-theorem query_cacheOK (s : State) (q : Query) (h : CacheOK s) : CacheOK (query s q).1 := by
-  have h1 := ensureCache_cacheOK h
+/-- a query leaves the state alone or fills the cache — nothing else -/
+theorem query_fst (s : State) (q : Query) : (query s q).1 = s ∨ (query s q).1 = (ensureCache s).1 := by
   unfold query
   split
-  · rename_i s1 e heq; rw [heq] at h1; exact h1
-  · rename_i s1 c heq; rw [heq] at h1; exact h1
+  · exact Or.inl rfl
+  · split
+    · right
+      split <;> (rename_i heq; rw [heq])
+    · exact Or.inl rfl
+
+theorem query_cacheOK (s : State) (q : Query) (h : CacheOK s) : CacheOK (query s q).1 := by
+  rcases query_fst s q with h1 | h1 <;> rw [h1]
+  · exact h
+  · exact ensureCache_cacheOK h
 
 end Mxl.C03
